@@ -661,26 +661,17 @@ int32 dtlsChkReplayWindow(ssl_t *ssl, unsigned char *seq64)
     lastSeq = ((uint32_t) ls64[2] << 24) + ((uint32_t) ls64[3] << 16) +
               ((uint32_t) ls64[4] << 8) + (uint32_t) ls64[5];
 
-    if (seq == 0)
+    /* The window describes one epoch. The first record seen on another
+       epoch starts a new, empty window; a sequence number 0 arriving again
+       on the same epoch is a duplicate like any other number. */
+    if (ssl->rec.epoch[0] != ssl->windowEpoch[0] ||
+        ssl->rec.epoch[1] != ssl->windowEpoch[1])
     {
-        /* Need to differentiate between initial, duplicate, and epoch shift */
-        if (lastSeq == 0 && ssl->rec.epoch[0] == 0 && ssl->rec.epoch[1] == 0)
-        {
-            ssl->dtlsBitmap = 0;
-            return 1; /* initial one */
-        }
-        if (dtlsCompareEpoch(ssl->rec.epoch, ssl->expectedEpoch) >= 0 &&
-            lastSeq > 0)
-        {
-            ssl->dtlsBitmap = 0;
-            return 1; /* epoch shift */
-        }
-        if (lastSeq == 0xFFFFFFF)
-        {
-            ssl->dtlsBitmap = 0;
-            return 1; /* wrapped */
-        }
-        return 0;     /* duplicate */
+        ssl->windowEpoch[0] = ssl->rec.epoch[0];
+        ssl->windowEpoch[1] = ssl->rec.epoch[1];
+        zeroSixByte(ssl->lastRsn);
+        lastSeq = 0;
+        ssl->dtlsBitmap = 0;
     }
 
     if (seq > lastSeq)                 /* new larger sequence number */
